@@ -7,6 +7,7 @@ package blockchain
 // no-op twins of the two functions called from push.go and nothing else exists.
 
 import (
+	"net/http"
 	"sync/atomic"
 	"time"
 
@@ -44,6 +45,31 @@ func verifPushGate(point string, in *pushNotify) {
 	}
 }
 
+var verifPushRespTimeout int64 // nanoseconds; 0 keeps the production value (10s)
+
+// VerifPushSetResponseTimeout sets how long the push client waits for a subscriber's answer, for
+// this node's push service and for those created later by VerifPushRestart / VerifPushWipe (a
+// harness that holds a request as a gate must not race against the 10s production timeout).
+// Call it while no post is in progress.
+func VerifPushSetResponseTimeout(chain *BlockChain, d time.Duration) {
+	atomic.StoreInt64(&verifPushRespTimeout, int64(d))
+	if chain != nil && chain.push != nil {
+		verifPushApplyTimeout(chain.push)
+	}
+}
+
+func verifPushApplyTimeout(p *Push) {
+	d := time.Duration(atomic.LoadInt64(&verifPushRespTimeout))
+	if d <= 0 {
+		return
+	}
+	if pc, ok := p.postService.(*PushClient); ok {
+		if tr, ok := pc.client.Transport.(*http.Transport); ok {
+			tr.ResponseHeaderTimeout = d
+		}
+	}
+}
+
 // VerifPushSetFail2Sleep sets the number of back-off ticks after a failed post.
 func VerifPushSetFail2Sleep(chain *BlockChain, n int32) { chain.push.postFail2Sleep = n }
 
@@ -54,6 +80,7 @@ func VerifPushRestart(chain *BlockChain) {
 	chain.push.Close()
 	chain.push = newpush(chain.blockStore, chain.blockStore, chain.client)
 	chain.push.postFail2Sleep = atomic.LoadInt32(&verifPushDefaultFail2Sleep)
+	verifPushApplyTimeout(chain.push)
 }
 
 var verifPushDefaultFail2Sleep = postFail2Sleep
@@ -82,6 +109,7 @@ func VerifPushWipe(chain *BlockChain) error {
 	}
 	chain.push = newpush(chain.blockStore, chain.blockStore, chain.client)
 	chain.push.postFail2Sleep = atomic.LoadInt32(&verifPushDefaultFail2Sleep)
+	verifPushApplyTimeout(chain.push)
 	return nil
 }
 
